@@ -84,6 +84,11 @@ func (w *World) execCopyTo(op *Op) bool {
 			}
 		}
 	}
+	// the destination store is created by CopyTo without the source's callbacks, so it
+	// (and its file) hold the values in plain form whatever the case's value callbacks do
+	savedExtra, savedStored := curValExtra, curValStored
+	curValExtra, curValStored = 0, nil
+	defer func() { curValExtra, curValStored = savedExtra, savedStored }()
 	// returned store == source model
 	if msg := CompareStore(res, src.m); msg != "" {
 		w.failf("copyto-contents", "the store returned by CopyTo differs from the source: %s", msg)
